@@ -396,7 +396,6 @@ class Check:
         self.known_hit = {}
         self.budget_mult = 1
         self.changed_sources = source_changed(prop)
-        self.extra["anchored_sources_changed_since_review"] = self.changed_sources
 
     def scale(self, n: int) -> int:
         """generation budget: tripled when an anchored source file differs from the reviewed version"""
@@ -530,6 +529,7 @@ class Check:
             "spec_violations_on_impl": len(self.spec_violations),
             "known_findings_hit": sorted(self.known_hit),
             "build_wall_s": round(build.wall, 2),
+            "anchored_sources_changed_since_review": self.changed_sources,
             **self.extra,
         }
         ev = {
